@@ -134,6 +134,13 @@ def rprogram(rnd, maxdepth=5):
             ctr[0] += 1
             prog.append({'k': 'for', 'var': f'e{ctr[0]}', 'idx': '', 'e': J.call('arrayNew', J.num(1), J.num(2)), 'body': [fdef]})
         prog.append({'k': 'expr', 'e': J.call('probe', J.num(501), J.call('fnin', J.num(2)))})
+    if fns and rnd.random() < 0.25:
+        # a function statement (re)binds the global of that name: a second definition replaces the first, also for a name that
+        # already holds a value
+        f = rnd.choice(fns + ['ga'])
+        prog.append({'k': 'function', 'name': f, 'args': ['pa'], 'last': False,
+                     'body': [{'k': 'expr', 'e': J.call('probe', J.num(502), J.var('pa'))}, {'k': 'return', 'hasE': True, 'e': J.num(rnd.randint(50, 59))}]})
+        prog.append({'k': 'expr', 'e': J.call('probe', J.num(503), J.call(f, J.num(3)))})
     if fns and rnd.random() < 0.5:
         prog.append({'k': 'assign', 'name': 'fval', 'e': J.var(rnd.choice(fns))})
         prog.append({'k': 'expr', 'e': J.call('probe', J.num(500), J.call('fval', J.num(1)))})
